@@ -42,7 +42,8 @@ Inductive goal :=
 | GProject (xs : list nat) (gs : list goal)
 | GDom (x : term) (d : fd)                  (* infd / infdrange *)
 | GRel (r : fdrel) (args : list term)
-| GProbe (tag : nat).
+| GProbe (tag : nat)
+| GSq (u v : term).   (* the harness's non-relational goal: succeeds with v = u*u only if u is literally a number *)
 
 Definition env := list (nat * term).
 
@@ -63,6 +64,7 @@ Inductive cgoal :=
 | CPost (c : constraint)
 | CPanicG (site : nat)
 | CProbe (tag : nat)
+| CSq (u v : term)
 | CForceAns (x : term)
 | CEnforceFd
 | CReify (x : term).
@@ -275,6 +277,9 @@ Fixpoint elab (fuel : nat) (k : kind) (rho : env) (g : goal) (n : nat) {struct f
        | _ => if forallb var_or_number a then rel_goal k r a else CPanicG panic_site_constraint_operand
        end, n1)
   | GProbe tag => (CProbe tag, n)
+  | GSq u v =>
+      let '(u', n1) := elab_term rho u n in
+      let '(v', n2) := elab_term rho v n1 in (CSq u' v', n2)
   end
   end.
 
@@ -428,6 +433,21 @@ Fixpoint walk_star_pairs (s : smap) (ps : smap) : option (option smap) :=
       end
   end.
 
+(* Project::solve: every projected name is rebound to the walk_star'ed value it has in the state that
+   reaches the project goal (None: the value is cyclic / fuel ran out) *)
+Fixpoint project_env (st : state) (rho : env) (xs : list nat) (rho' : env) : option env :=
+  match xs with
+  | [] => Some rho'
+  | x :: r =>
+      match env_lookup x rho with
+      | Some t => match walk_star dfuel (st_smap st) t with
+                  | Some w => project_env st rho r ((x, w) :: rho')
+                  | None => None
+                  end
+      | None => project_env st rho r rho'
+      end
+  end.
+
 (* Solve::solve for every goal object.  One unit of fuel per nested call inside a single engine
    step; exhausting it stands for a step that does not return. *)
 Fixpoint start (n : nat) (g : cgoal) (st : state) {struct n} : stream :=
@@ -481,19 +501,7 @@ Fixpoint start (n : nat) (g : cgoal) (st : state) {struct n} : stream :=
         start n' (from_iter k cs) (set_nextv st nv)
     | CProject k rho xs gs =>
         (* intended semantics: the body sees the walk_star'ed value of each projected variable *)
-        let proj := fix proj (xs : list nat) (rho' : env) : option env :=
-          match xs with
-          | [] => Some rho'
-          | x :: r =>
-              match env_lookup x rho with
-              | Some t => match walk_star dfuel (st_smap st) t with
-                          | Some w => proj r ((x, w) :: rho')
-                          | None => None
-                          end
-              | None => proj r rho'
-              end
-          end in
-        match proj xs rho with
+        match project_env st rho xs rho with
         | None => SErr true 0
         | Some rho' =>
             let '(c, nv) := elab efuel k rho' (GConj (map (fun g => GConj [g]) gs)) (st_nextv st) in
@@ -503,6 +511,10 @@ Fixpoint start (n : nat) (g : cgoal) (st : state) {struct n} : stream :=
     | CPost c => sres_stream (post_constraint c st)
     | CPanicG site => SErr false site
     | CProbe tag => SUnit (log_event st (probe_event tag st))
+    | CSq u v => match u with
+                 | TVal (LNum z) => sres_stream (state_unify st (tnum (z * z)) v)
+                 | _ => SEmpty
+                 end
     | CForceAns x =>
         let xw := wk (st_smap st) x in
         match xw, dom_get st xw with
